@@ -84,6 +84,23 @@ func sameGeometry(want, got []gseg, rel, abs float64) (bad string, worst float64
 			if w.Kind == 'M' {
 				slack = 0
 			}
+			// a sub-precision line whose counterpart was printed as a zero-length line (dropped above)
+			// or arose from rounding: skip it if that aligns the next segment, rather than let the
+			// scale-relative tolerance accept a shifted pairing
+			if short(w) && !short(g) && i+1 < len(want) {
+				if m, _, _ := segSame(i+1, want[i+1], g, rel, abs, scale, carry, slack+w.P0.Dist(w.End)); m == "" {
+					slack += w.P0.Dist(w.End)
+					i++
+					continue
+				}
+			}
+			if short(g) && !short(w) && j+1 < len(got) {
+				if m, _, _ := segSame(i, w, got[j+1], rel, abs, scale, carry, slack+g.P0.Dist(g.End)); m == "" {
+					slack += g.P0.Dist(g.End)
+					j++
+					continue
+				}
+			}
 			msg, ratio, newCarry := segSame(i, w, g, rel, abs, scale, carry, slack)
 			if msg == "" {
 				carry = newCarry
@@ -106,11 +123,15 @@ func sameGeometry(want, got []gseg, rel, abs float64) (bad string, worst float64
 			}
 			return msg, ratio
 		}
-		if i < len(want) && short(want[i]) {
+		// left-over lines that are shorter than the tolerance in force (sub-precision, or behind a
+		// centre-form arc whose printed angles displace everything after it by `carry`) cannot be told
+		// from their absence
+		negligible := func(s gseg) bool { return short(s) || s.Kind == 'L' && s.P0.Dist(s.End) <= carry }
+		if i < len(want) && negligible(want[i]) {
 			i++
 			continue
 		}
-		if j < len(got) && short(got[j]) {
+		if j < len(got) && negligible(got[j]) {
 			j++
 			continue
 		}
